@@ -1,5 +1,6 @@
 import DadiVerif.Lemmas.Projection
 import DadiVerif.Lemmas.ProjThm
+import DadiVerif.Lemmas.ProjLowPass
 /-!
 # C08 — projection is hypergeometric subsampling: conserving, composable, mask-monotone
 
@@ -540,6 +541,56 @@ theorem C08_axis_pairing (S : Spec) (ns sizes : List ℕ) (npop : ℕ) :
         (fun o k => if doAxis (ns.getD k 0) (sizes.getD k 0) then o.projectAxis k (ns.getD k 0) else o) S :=
   ⟨PBox.range_zip_self ns, fun _ _ => rfl, fun _ _ => rfl, PBox.projectAxes_eq_range S ns sizes⟩
 
+/-! ## projection inside the low-pass machinery (dadi/LowPass/LowPass.py) -/
+
+section lowpass
+open LPAx Gen.ProjLP
+
+/-- **The per-population loop of `lowpass_func` applies matrix k along axis k and restores the axis order.**
+    `LowPass.make_low_pass_func_GATK_multisample` re-implements projection: its inner `lowpass_func` pushes the model
+    spectrum `analytic` (d populations) through one projection matrix and one calling-error matrix per population.  The loop is
+    regenerated from the source on every run: `loopVisits d` (header `enumerate(zip(proj_mats, heterr_mats))`), `loopBody d k`
+    (the statement list `swapaxes(k, −1); dot; dot; swapaxes(k, −1)` as `AxStmt`s), and `LPAx.runBody` / `LPAx.runLoop`
+    *execute* these lists: `swapaxes` / `moveaxis` permute the positions of an index assignment, `dot` contracts the last
+    position and refuses a matrix with the wrong number of rows (`none` = numpy's ValueError).  For every number of populations,
+    all sizes (equal or not) and all matrices with matching sizes:
+    (1) glue — every population is visited once, in order; the k-th matrices of `proj_mats` / `heterr_mats` are the ones the
+        precalculation returned under these names (`precalcUnpack = precalcReturn`), population k's projection matrix is
+        `projection_matrix(nseq[k], nsub[k], Fx[k])` times a scalar; `analytic` is touched by nothing else between its
+        definition and `output = analytic + simulated`;
+    (2) one pass of the body for population k is exactly "projection matrix, then calling-error matrix, ALONG POSITION k":
+        entry idx of the result is Σ_j (Σ_i A[idx, k ↦ i] · P_k[i, ·]) … with every other position — and the order of the
+        positions — untouched; the shape changes at position k only;
+    (3) the whole loop is the composition of these for k = 0, …, d−1, shape `k ↦ cols (heterr_mats[k])`;
+    (4) different populations commute (the result does not depend on the order in which they are visited), and an identity
+        calling-error matrix drops out (deep coverage: the loop is the per-axis projection matrices and nothing else).
+    The proof accepts the two correct forms of the body — the axis swapped to the end and swapped back (the current source), or
+    moved to the end with `moveaxis` and moved back.  A body that moves an axis with `moveaxis` and puts it back with `swapaxes`
+    changes `loopBody` into neither; (2) then fails (see the counter-example below: for d = 3 such a body gives different
+    entries). -/
+theorem C08_lowpass_axes (d : ℕ) (mats : ℕ → ℕ → Mat) (s : St)
+    (hP : ∀ k < d, s.shape k = (mats k 0).rows) (hH : ∀ k < d, (mats k 0).cols = (mats k 1).rows) :
+    (loopVisits d = List.range d ∧ loopMatLists = ["proj_mats", "heterr_mats"]
+      ∧ precalcUnpack = precalcReturn ∧ precalcStoreOk = true ∧ precalcParams = ["nsub", "nseq", "cov_dist", "sim_threshold", "Fx"]
+      ∧ projMatsCall = ["nseq", "nsub", "Fx"] ∧ projMatParams = ["n_sequenced", "n_subsampling", "F"]
+      ∧ projMatsScaledOk = true ∧ analyticShapeOk = true)
+    ∧ (∀ k < d, ∀ t : St, t.shape k = (mats k 0).rows →
+        runBody d k (mats k) t = some ⟨upd t.shape k (mats k 1).cols,
+          along k (mats k 1).rows (mats k 1).get (along k (mats k 0).rows (mats k 0).get t.val)⟩)
+    ∧ runLoop d mats s = some ⟨fun p => if p < d then (mats p 1).cols else s.shape p,
+        (List.range d).foldl (fun A k =>
+          along k (mats k 1).rows (mats k 1).get (along k (mats k 0).rows (mats k 0).get A)) s.val⟩
+    ∧ (∀ a b : ℕ, a ≠ b → ∀ (Ma Mb : ℕ → Mat) (A : Idx → ℚ),
+        bodyVal Ma a (bodyVal Mb b A) = bodyVal Mb b (bodyVal Ma a A))
+    ∧ (∀ (k n : ℕ) (A : Idx → ℚ) (idx : Idx), idx k < n → along k n (fun i j => if i = j then 1 else 0) A idx = A idx) :=
+  ⟨⟨rfl, by decide, by decide, by decide, by decide, by decide, by decide, by decide, by decide⟩,
+   fun k hk t ht => runBody_eq d k (by first | exact Or.inl fun _ => rfl | exact Or.inr fun _ => rfl) hk (mats k) t ht (hH k hk),
+   runLoop_eq d (by first | exact Or.inl fun _ => rfl | exact Or.inr fun _ => rfl) rfl mats s hP hH,
+   fun _ _ hab Ma Mb A => bodyVal_comm hab Ma Mb A,
+   fun k n A idx h => along_one k n A idx h⟩
+
+end lowpass
+
 /-! ## non-vacuity -/
 
 /-- unequal target sizes, the later axes shrinking more than the first: every size lands on its own axis (3×4×5 → 3×2×2) -/
@@ -574,6 +625,26 @@ example : ∃ P1 P12, exS.project [2, 2] = .ok P1 ∧ P1.project [1, 2] = .ok P1
 
 /-- the conserved total is a non-trivial number: 48 before and after -/
 example : exS.total = 48 ∧ (exS.projectAxis 1 1).total = 48 := by decide +kernel
+
+/-- three populations of EQUAL size (2 entries per axis), a different projection matrix per population, identity calling-error
+    matrices, a spectrum that is not symmetric in its axes: the hypotheses of `C08_lowpass_axes` hold and the loop gives
+    Σ over the source box of A[src] · Π_k P_k[src_k, tgt_k]  (entry (0,1,0) is the non-trivial number 1117/24) -/
+def exLPmats : ℕ → ℕ → LPAx.Mat := fun k j =>
+  if j = 0 then ⟨2, 2, fun i c => if i = 0 then (if c = 0 then 1 else 0) else (if c = 0 then (k + 1 : ℚ) / (k + 2) else 1 / (k + 2))⟩
+  else ⟨2, 2, fun i c => if i = c then 1 else 0⟩
+def exLPst : LPAx.St := ⟨fun _ => 2, fun idx => (idx 0 + 10 * idx 1 + 100 * idx 2 : ℕ)⟩
+
+example : (∀ k < 3, exLPst.shape k = (exLPmats k 0).rows) ∧ (∀ k < 3, (exLPmats k 0).cols = (exLPmats k 1).rows) := by
+  constructor <;> intro k _ <;> simp [exLPst, exLPmats]
+
+example : (LPAx.runLoop 3 exLPmats exLPst).map (fun t => (t.val (fun p => if p = 1 then 1 else 0), t.shape 0)) = some (1117/24, 2) := by
+  decide +kernel
+
+/-- the seeded variant "move the axis to the end with `moveaxis`, put it back with `swapaxes`" is a different program in the
+    model: on the same input entry (0,1,0) becomes 2197/24 -/
+example : (LPAx.foldOpt (fun s k => LPAx.foldOpt (LPAx.step 3 (exLPmats k)) s [.move k 2, .dot 0, .dot 1, .swap k 2]) exLPst (List.range 3)).map
+    (fun t => t.val (fun p => if p = 1 then 1 else 0)) = some (2197/24) := by
+  decide +kernel
 
 /-- two different axes of `exS` with admissible targets -/
 example : (0 : ℕ) ≠ 1 ∧ 0 < exS.shape.length ∧ 1 < exS.shape.length ∧ 0 < exS.shape.getD 0 0 ∧ 0 < exS.shape.getD 1 0
